@@ -327,6 +327,7 @@ class Check:
 
     # ---- proof side
     def prove(self, propfile, model_targets=(), translators=None):
+        """translators: names (without t_) this property depends on; None = all (their failures are then all reported)"""
         targets = list(model_targets) + ["props/%s.vo" % propfile]
         ok, text, tr = coq_make(targets, translators=translators)
         for n, e in tr.items():
